@@ -14,6 +14,10 @@
 (*   names  the variable names carried (ranks: the name with rank r sorts    *)
 (*          before rank r+1; default names var_0, var_1, ... have ranks      *)
 (*          101, 102, ...; << >> when the representation carries none)       *)
+(*   tl     the time labels carried: "orig" (the labels the series cells     *)
+(*          came with -- reversed, or starting elsewhere for every instance)  *)
+(*          or "default" (0..t-1: arrays carry no labels, so a conversion    *)
+(*          into or out of an array representation numbers the points anew)  *)
 (* Step(v, edge) is the documented effect of one conversion function.        *)
 (***************************************************************************)
 EXTENDS Integers, Sequences, FiniteSets, TLC, SequencesExt
@@ -27,7 +31,8 @@ Edges == { <<"ns", "np3">>, <<"na", "np3">>, <<"np3", "ns">>, <<"np3", "na">>,
 DefaultNames(k) == [j \in 1..k |-> 100 + j]
 \* permutation that sorts the variables by their identifier (rank)
 SortPerm(names) == SetToSortSeq(DOMAIN names, LAMBDA a, b : names[a] < names[b])
-Step(v, to) ==
+LabelLess == {"np3", "np3n", "t2", "na"}
+StepCore(v, to) ==
     LET k == Len(v.order) IN
     CASE to = "np3n" -> [rep |-> to, order |-> v.order, names |-> v.names]      \* the names travel next to the array
       [] to \in {"np3", "t2"} -> [rep |-> to, order |-> v.order, names |-> << >>]
@@ -36,13 +41,17 @@ Step(v, to) ==
            LET p == SortPerm(v.names) IN
            [rep |-> to, order |-> [j \in 1..k |-> v.order[p[j]]], names |-> DefaultNames(k)]
       [] OTHER -> [rep |-> to, order |-> v.order, names |-> v.names]               \* name-carrying to name-carrying
+Step(v, to) ==
+    LET c == StepCore(v, to) IN
+    [rep |-> c.rep, order |-> c.order, names |-> c.names,
+     tl |-> (IF to \in LabelLess \/ v.rep \in LabelLess THEN "default" ELSE v.tl)]
 RECURSIVE Walk(_, _)
 Walk(v, path) == IF Len(path) = 0 THEN v ELSE Walk(Step(v, Head(path)), Tail(path))
 ValidPath(from, path, ncol) ==
     /\ \A i \in DOMAIN path : <<(IF i = 1 THEN from ELSE path[i - 1]), path[i]>> \in Edges
     /\ (ncol > 1 => \A i \in DOMAIN path : path[i] # "t2")
-Start(rep, names) == [rep |-> rep, order |-> [j \in DOMAIN names |-> j], names |-> names]
-Expected(c) == Walk(Start(c.from, c.names), c.path)
+Start(rep, names, tl) == [rep |-> rep, order |-> [j \in DOMAIN names |-> j], names |-> names, tl |-> tl]
+Expected(c) == Walk(Start(c.from, c.names, IF (c.trev \/ c.tshift) /\ c.from = "ns" THEN "orig" ELSE "default"), c.path)
 Identity(k) == [j \in 1..k |-> j]
 \* nestedness predicates: m[i][j] says whether the cell of row i, column j holds a series / array;
 \* a column is nested iff some row's cell is; a frame is nested iff some column is
